@@ -418,6 +418,10 @@ func (ex ExecRegisterWantType) RsaPrivateKey(key *rsa.PrivateKey, usage kmip.Cry
 		}
 		return ex.rawKeyBytes(true, kb, alg, bitlen32, kmip.KeyFormatTypePKCS_8, usage)
 	case Transparent:
+		if len(key.Primes) != 2 {
+			// The transparent format carries exactly the two prime factors P and Q.
+			return ex.error(errors.New("The transparent RSA private key format requires exactly two primes"))
+		}
 		pkey := &kmip.PrivateKey{
 			KeyBlock: kmip.KeyBlock{
 				CryptographicAlgorithm: alg,
